@@ -429,7 +429,6 @@ return 1;
 {PY_typedef_converter} value;
 int i = {PY_helper_prefix}get_from_object_char(obj, &value);
 if (i == 0) {{+
-Py_DECREF(obj);
 return -1;
 -}}
 if (value.data == {nullptr}) {{+
